@@ -38,8 +38,9 @@ pub fn c04(rng: &mut Rng, tier: &str, idx: usize) -> Case {
         c.op("complete".to_string());
         c.op("parent 2 3".to_string());
         c.op("connect".to_string());
-        let k = rng.below(3) as usize;
-        let small = rng.range(300, 900);
+        // genes and diseases are scored by different functions: alternate deterministically
+        let k = (idx / 60) % 3;
+        let small = rng.range(600, 900);
         let total = rng.range(65_000, 65_534);
         // descending id ranges (each annotation is then the smallest id of its term)
         c.op(format!("bulkann {} {} {} {} 2", KINDS[k], 1 + small, total - small, name("only a")));
